@@ -1,21 +1,56 @@
 from specs import R
 
+# mode wire: every protocol entry (nng side) of the raw-peer line must have been
+# seen in some distinct situations, or the line is inconclusive
+_WIRE_ENTRIES = ["pair0", "pair1", "pair1raw", "push", "pull", "pub", "sub", "bus", "busraw", "req", "rep",
+                 "surveyor", "respondent", "xreq", "xrep", "xsurveyor", "xrespondent",
+                 "ws-pull", "ws-sub", "ws-pair0", "ws-pair1", "ws-bus"]
+
+
+def _wire_floor(scale):
+    f = {"wire_in_verified": 2000 * scale, "wire_out_verified": 1500 * scale,
+         "wire_verified_tcp": 1000 * scale, "wire_verified_ipc": 800 * scale, "wire_verified_sockfd": 800 * scale,
+         "wire_verified_ws": 400 * scale,
+         "wire_coalesced_streams": 50 * scale, "wire_peer_cuts": 200 * scale,
+         "wire_peer_cuts_prefix": 40 * scale, "wire_peer_cuts_header": 15 * scale, "wire_peer_cuts_body": 40 * scale,
+         "wire_cases_nng_listens": 60 * scale, "wire_cases_nng_dials": 60 * scale,
+         "wire_short_sends": 1000 * scale, "wire_short_recvs": 1000 * scale,
+         "wire_ws_frames_behind_handshake": 20 * scale, "wire_ws_stream_beyond_http_buffer": 10 * scale,
+         "wire_ws_fragments": 200 * scale, "wire_ws_pings": 30 * scale, "wire_ws_cases_nng_listens": 8 * scale,
+         "wire_extra_probes": 300 * scale,
+         "@class:wire/*": 150,
+         "@class:wire/tcp/*": 30, "@class:wire/ipc/*": 30, "@class:wire/sockfd/*": 30, "@class:wire/ws/*": 20,
+         "@class:wire/*/one*/*": 30, "@class:wire/*/dribble/*": 20, "@class:wire/*/chunks/*": 20, "@class:wire/*/cut*/*": 30}
+    for e in _WIRE_ENTRIES:
+        f["@class:wire/*/%s/*" % e] = 3
+    return f
+
+
+_quick_floor = {"verified": 3000, "short_sends": 200, "short_recvs": 200, "@classes": 100,
+                "verified_ws": 300, "verified_sockfd": 300, "verified_inproc": 100, "verified_tcp": 300, "verified_ipc": 300,
+                "ws_fragmented_msgs": 50, "verified_aio_form": 200, "extra_probes": 1000,
+                "@class:*/busbus/*": 5, "@class:*/xsurvxresp/*": 5}
+_quick_floor.update(_wire_floor(1))
+_thorough_floor = {"verified": 30000, "short_sends": 2000, "short_recvs": 2000, "@classes": 150,
+                   "@class:*/busbus/*": 10, "@class:*/xsurvxresp/*": 10}
+_thorough_floor.update(_wire_floor(8))
+
 SPEC = dict(
     level="exploration",
-    level_text="Runtime monitor over real transports: two nng sockets in one process exchange seeded messages over inproc/ipc/tcp/ws/socket-fd while a link-time interposer clamps nng's own sendmsg/send/writev/readv calls (dribble, random chunks, one cut at every stream offset for small frames, injected EAGAIN); the receiver regenerates the expected header and body of the i-th message and demands equality, order and no extras; ASan/UBSan and the guarded message/aio hooks watch the resume paths. Sampled for large frames, exhaustive single-cut enumeration for small ones.",
-    level_note="Trusts the interposer to model only transfers a kernel could legally produce (short counts, EAGAIN); kernel behaviours it cannot fake are out of reach. Both peers are nng, so a symmetric framing error on both sides could cancel out (the raw-peer checks of C11/C16 cover the wire format).",
-    technique="runtime end-to-end integrity monitor + short-I/O fault injection + ASan/UBSan",
-    rule="a case is (transport, protocol pair, cut plan, message list); messages have sizes from the boundary list {0,1,2,7,8,9,31,...,65537} or random; the cuts mode enumerates one cut at every absolute stream offset 1..120 (handshake + 3 small frames) on the send side and on the receive side for tcp/ipc/socket-fd x 5 protocol pairs (ws: offsets 130..430 for pair1 in quick, 1..700 for all pairs in thorough); sampled ws cases set NNG_OPT_WS_SENDMAXFRAME to {1,2,16,125,126,127,1000} on both ends so that messages are fragmented, and a third of the sampled cases use the aio forms of send/receive; a class is (transport, pair, plan, which sides actually saw short transfers)",
+    level_text="Runtime monitor over real transports. (1) Two nng sockets in one process exchange seeded messages over inproc/ipc/tcp/ws/socket-fd while a link-time interposer clamps nng's own sendmsg/send/writev/readv calls (dribble, random chunks, one cut at every stream offset for small frames, injected EAGAIN); the receiver regenerates the expected header and body of the i-th message and demands equality, order and no extras. (2) One nng socket against a raw peer that the harness implements on a plain fd over tcp/ipc/socket-fd (either side listening) and ws: the peer does the SP handshake by hand, composes the byte stream of N well-formed frames itself and decides how it is cut into write() calls (all frames coalesced in one write, 1..7-byte dribble, random chunks with pauses, one cut inside a length prefix / SP header / body followed by a pause), and a strict framer checks every byte nng puts on the wire (ipc type octet, 8-byte length = header+body, the SP header the protocol is specified to emit, body, nothing after the last frame) - so an error nng makes symmetrically when sending and receiving cannot cancel out; for ws the peer is a raw RFC 6455 server that writes the 101 reply plus all frames (optionally fragmented, with PINGs) in one write so that frames sit behind the reply in nng's HTTP buffer, or a client sending masked frames. ASan/UBSan and the guarded message/aio hooks watch the resume paths. Sampled for large frames, exhaustive single-cut enumeration for small ones.",
+    level_note="Trusts the interposer to model only transfers a kernel could legally produce (short counts, EAGAIN); kernel behaviours it cannot fake are out of reach. The raw-peer line covers one pipe per socket; it does not judge what nng's websocket layer sends (C16 does) and treats a failed SP / websocket handshake as a harness failure, not a violation.",
+    technique="runtime end-to-end integrity monitor (nng<->nng and nng<->raw SP peer with strict framer) + short-I/O fault injection + ASan/UBSan",
+    rule="a case is (transport, protocol pair, cut plan, message list); messages have sizes from the boundary list {0,1,2,7,8,9,31,...,65537} or random; the cuts mode enumerates one cut at every absolute stream offset 1..120 (handshake + 3 small frames) on the send side and on the receive side for tcp/ipc/socket-fd x 5 protocol pairs (ws: offsets 130..430 for pair1 in quick, 1..700 for all pairs in thorough); sampled ws cases set NNG_OPT_WS_SENDMAXFRAME to {1,2,16,125,126,127,1000} on both ends so that messages are fragmented, and a third of the sampled cases use the aio forms of send/receive; lossy pairs (pub/sub, bus/bus, raw surveyor/raw respondent) go in lock-step; a class is (transport, pair, plan, which sides actually saw short transfers). A wire case is (transport in tcp/ipc/socket-fd/ws, who listens, protocol entry of the nng side in {pair0, pair1, pair1 raw, push, pull, pub, sub, bus, bus raw, req, rep, surveyor, respondent, raw req/rep/surveyor/respondent with 1..15 header words}, 3..24 messages, peer segmentation, interposer plan for nng); cooked req/rep/surveyor/respondent run in lock-step with backtraces of 1..7 words that the reply must carry back exactly; its class is (transport, entry, peer segmentation, nng plan, short transfers seen)",
     assumptions=["loopback kernel sockets", "interposed sendmsg/send/writev/readv are the only stream I/O calls of the posix platform layer"],
     quick=dict(runs=[R("c01_integrity", "asan", 8, 0, "cuts", 600),
-                     R("c01_integrity", "asan", 8, 60, "sampled", 600)],
-               floor={"verified": 3000, "short_sends": 200, "short_recvs": 200, "@classes": 100,
-                      "verified_ws": 300, "verified_sockfd": 300, "verified_inproc": 100, "verified_tcp": 300, "verified_ipc": 300,
-                      "ws_fragmented_msgs": 50, "verified_aio_form": 200, "extra_probes": 1000},
+                     R("c01_integrity", "asan", 8, 60, "sampled", 600),
+                     R("c01_integrity", "asan", 8, 70, "wire", 600)],
+               floor=_quick_floor,
                eval_key="verified"),
     thorough=dict(runs=[R("c01_integrity", "asan", 16, 0, "cuts", 3000),
                         R("c01_integrity", "asan", 16, 400, "sampled", 3000),
+                        R("c01_integrity", "asan", 16, 300, "wire", 3000),
                         R("c01_integrity", "tsan", 8, 60, "sampled", 3000)],
-                  floor={"verified": 30000, "short_sends": 2000, "short_recvs": 2000, "@classes": 150},
+                  floor=_thorough_floor,
                   eval_key="verified"),
 )
